@@ -61,7 +61,12 @@ def task_scripts(rp, seed, tier):
     return script_sim.run_all(rp, tier)
 
 
-CHECKS = {'sched-histories': sched_histories, 'bf-histories': bf_histories, 'lm-placements': lm_placements,
+def wait_calls(rp, seed, tier):
+    from harness import wait_sim
+    return wait_sim.run_all(rp, tier)
+
+
+CHECKS = {'wait-calls': wait_calls, 'sched-histories': sched_histories, 'bf-histories': bf_histories, 'lm-placements': lm_placements,
           'staging-e2e': staging_e2e, 'task-scripts': task_scripts}
 
 
